@@ -20,10 +20,21 @@ InjSeqs(S, n) == { s \in [1..n -> S] : \A i, j \in 1..n : s[i] = s[j] => i = j }
 ValuesOver(n, names) ==
   { [i \in 1..n |-> <<Names[ns[i]], Body(i, ls[i])>>] : ns \in InjSeqs(names, n), ls \in [1..n -> LensFor(n)] }
 ValuesOfSize(n) == ValuesOver(n, NameIdx(n))
+\* ---- names whose Shift-JIS form is L bytes long: one single-byte character (`tag`), then double-byte characters
+\* (so one of them straddles every even offset such as 64 and 128), then one more single byte if L is even
+LongLens == <<63, 64, 65, 127, 128, 129>>
+LongName(L, tag) ==
+  <<tag>> \o [p \in 1..(2 * ((L - 1) \div 2)) |->
+                IF p % 2 = 1 THEN (IF ((p + 1) \div 2) % 2 = 0 THEN 149 ELSE 130)
+                ELSE (IF (p \div 2) % 2 = 0 THEN 92 ELSE 160)]
+          \o (IF (L - 1) % 2 = 1 THEN <<98>> ELSE <<>>)
+LongValues ==
+  { << <<LongName(LongLens[k], 97), Body(1, 33)>> >> : k \in 1..6 }
+  \cup { << <<LongName(a, 97), Body(1, 1)>>, <<LongName(b, 99), Body(2, 32)>> >> : a \in {65, 129}, b \in {64, 65, 129} }
 MaxN == 3
-Values == UNION { ValuesOfSize(n) : n \in 0..MaxN }
+Values == UNION { ValuesOfSize(n) : n \in 0..MaxN } \cup LongValues
 \* replayed against the code: three names are enough for three files (keeps the printed volume bounded)
-GenValues == UNION { ValuesOver(n, IF n <= 2 THEN 1..4 ELSE 1..3) : n \in 0..MaxN }
+GenValues == UNION { ValuesOver(n, IF n <= 2 THEN 1..4 ELSE 1..3) : n \in 0..MaxN } \cup LongValues
 
 \* ---- layouts in scope
 Items(n) == { <<k, i>> : k \in {"n", "b"}, i \in 1..n }
